@@ -10,3 +10,7 @@ import ZckModel.Pred.C10
 import ZckModel.Sha.Spec
 import ZckModel.Sha.Bundled
 import ZckModel.Pred.C18
+import ZckModel.Format
+import ZckModel.Header
+import ZckModel.Pin
+import ZckModel.Pred.Hdr
